@@ -12,10 +12,10 @@ export CARGO_NET_OFFLINE=true
 res() { echo "$1" | tee -a /tmp/confirm-$SID.log; }
 : > /tmp/confirm-$SID.log
 cp $SRC/demo.rs tests/zz_seeded_demo.rs
-cargo test --offline --test zz_seeded_demo > /tmp/confirm-$SID.demo-without.txt 2>&1; W=$?
+cargo test --offline ${CONFIRM_FEATURES:-} --test zz_seeded_demo > /tmp/confirm-$SID.demo-without.txt 2>&1; W=$?
 res "demo without change: exit=$W"
 if ! git apply $SRC/patch.diff; then res "PATCH DOES NOT APPLY"; cd /; git -C /repo worktree remove --force $WT; exit 3; fi
-cargo test --offline --test zz_seeded_demo > /tmp/confirm-$SID.demo-with.txt 2>&1; D=$?
+cargo test --offline ${CONFIRM_FEATURES:-} --test zz_seeded_demo > /tmp/confirm-$SID.demo-with.txt 2>&1; D=$?
 res "demo with change: exit=$D"
 rm tests/zz_seeded_demo.rs
 cargo test --offline --no-fail-fast > /tmp/confirm-$SID.suite.txt 2>&1; S=$?
